@@ -659,7 +659,7 @@ impl Scenario for Bits {
         // endurance stratum: one run in 4096 is a long session (thousands of frames) on a host
         // whose watchdog never fires, so the bit counter runs for tens of thousands of bits
         // without a single clear()
-        let endurance = run % 4096 == 4095;
+        let endurance = is_endurance(run);
         let actions = if endurance { rng.range(3000, 3400) as usize } else { marathon(run, rng.range(4, max_actions) as usize) };
         let p = TypistParams { style, actions, stratum: ((run % 3) as u8, ((run / 3) % 16) as u8) };
         let session = type_session(rng, &cfg, &p);
@@ -672,6 +672,20 @@ impl Scenario for Bits {
         let watchdog_ok = !(rate_class != 0 && rng.chance(1, 10));
         let nseq = session.len();
         let fault_limit = nseq * 2 / 3;
+        // a correlated fault: for a stretch of the session every frame arrives with its parity
+        // bit inverted (an even-parity device, a systematically mis-sampled bit); stretches of a
+        // few dozen frames and around the 256 mark
+        let bad_parity_stretch: Option<(usize, usize)> = if rate_pct > 0 && rng.chance(1, 12) {
+            let len = match rng.below(3) {
+                0 => rng.range(30, 45),
+                1 => rng.range(250, 262),
+                _ => rng.range(258, 400),
+            } as usize;
+            Some((rng.below(fault_limit.max(1) as u64) as usize, len))
+        } else {
+            None
+        };
+        let mut stretch_left = 0usize;
         let mut ops: Vec<TOp> = Vec::new();
         let mut t: u64;
         let mut last_edge: u64 = 0;
@@ -688,9 +702,21 @@ impl Scenario for Bits {
                     ops.push(TOp { t: last_edge + timeout, op: Op::Clear });
                 }
             }
+            if let Some((at, len)) = bad_parity_stretch {
+                if si == at {
+                    stretch_left = len;
+                }
+            }
             for b in bytes {
                 let mut fault = WFault::None;
                 let mut skip_frame = false;
+                if stretch_left > 0 {
+                    stretch_left -= 1;
+                    ops.push(TOp { t, op: Op::Frame { sent: b, fault: WFault::Flip(1 << 9), via: via_run } });
+                    t += 11 * period;
+                    last_edge = t;
+                    continue;
+                }
                 if in_fault_zone && rng.chance(rate_pct, 100) {
                     for _ in 0..8 {
                         let k = rng.below(10) as u32;
@@ -714,7 +740,13 @@ impl Scenario for Bits {
                             6 => {
                                 // line noise / stuck line: arbitrary 11-bit words before the frame
                                 let stuck = rng.bool(); // a stuck/jammed line repeats the same word
-                                let n = if stuck { rng.range(1, 6) } else { rng.range(1, 3) };
+                                let n = if stuck && rng.chance(1, 1500) {
+                                    rng.range(65_530, 66_200) // unplugged for a minute: past the 16-bit mark
+                                } else if stuck {
+                                    rng.range(1, 6)
+                                } else {
+                                    rng.range(1, 3)
+                                };
                                 let w0 = match rng.below(4) {
                                     0 => 0x000,
                                     1 => 0x7FF,
